@@ -65,6 +65,8 @@ def _under(p) -> str | None:
 
 
 def rel(p: str) -> str:
+    if len(STATE.roots) > 1:
+        return p  # several watched roots: keep absolute paths (a single $R would be ambiguous)
     for r in STATE.roots:
         if p == r:
             return "$R"
@@ -165,10 +167,8 @@ def install(roots, hook=None):
         def w(*a, **k):
             p = _under(a[0]) if a else None
             p2 = _under(a[1]) if (len(a) > 1 and name in ("rename", "replace", "link", "symlink")) else None
-            if p is None and p2 is None and "dir_fd" not in k:
-                if name == "open" and a:
-                    pass
-                return f(*a, **k)
+            if p is None and p2 is None:
+                return f(*a, **k)  # (paths given relative to a dir_fd are not watched)
             label = name
             if name == "open":
                 flags = a[1] if len(a) > 1 else k.get("flags", 0)
